@@ -1,17 +1,28 @@
 """C04 - every call gets exactly one answer, its own; the method runs exactly once.
 
-1. TLC design check of System.tla (= bus.Client callers || network || Server.tla): every
-   interleaving of 3 calls on 2 connections + a post + a cancel frame carrying the id of a
-   call in flight, queues of capacity 1: the C04 invariants and "every call returns"
-   (fair scheduling).  Thorough: a second scenario (2 objects, failing call, missing
-   object/action, queue capacity 2).
-2. The same model with the deviations the code had (stub ignoring the message type,
-   two bus.Client on one end point): TLC must find the counterexamples (model_only).
+1. TLC design checks of System.tla (= bus.Client callers || network || Server.tla), all
+   interleavings, queues of capacity 1 (so that the drop step of a saturated end point is
+   part of the state space), the C04 invariants - among them FramesOwed: every frame the
+   peer receives is owed by exactly one Call - and "every call returns" (fair scheduling):
+   A: 3 calls on 2 connections + a post + a cancel frame carrying the id of a call in flight;
+   T: FOUR bus.Client objects on ONE end point (what bus.NewClientObject builds), all four
+      calls under the same message id, told apart by one field of the reply filter each
+      (object / service / action).
+   Thorough: B (2 objects, failing call, missing object/action, capacity 2) and T5 (two
+   clients on one end point, the second call of one of them and a post, all with the shared id).
+2. The named deviations must each be a TLC counterexample (vacuity guards, model_only):
+   stub ignoring the message type; two clients with the SAME target on one end point; the
+   reply filter ignoring the service / object / action / id; a dropped Post answered; a
+   dropped Call answered twice.
 3. (b) GenSystem.tla exports behaviours = sequences of the steps the harness controls
    (start call / write raw frame / let a method body return) with the expected
    observation; the harness forces each on a real server over harness-owned streams.
-4. (c) randomised concurrent drivers + flood runs record traces (hooks + harness events,
-   one sequence counter); TLC validates each against TraceSystem.tla.
+   Scenario T is replayed with bus.Client objects made like NewClientObject makes them
+   (bus.NewClient on the channel of the one end point), answers released in every order.
+4. (c) randomised concurrent drivers, runs with several clients on one end point and flood
+   runs (calls AND posts beyond 10 + 1 + 10 while the method is parked) record traces (hooks
+   + harness events, one sequence counter); TLC validates each against TraceSystem.tla.
+5. The same saturation as a burst on a harness-owned connection: frames counted per id.
 """
 import json, os, random, re
 from concurrent.futures import ThreadPoolExecutor
@@ -62,6 +73,24 @@ def classify(events, cfg, hw, other):
         if e["kind"] == "reply" and e["val"] != e["k"]:
             return "c04/outcome-of-other-call", "call %s returned the result for %s" % (e["k"], e["val"]), e
         return "c04/trace-outcome", "outcome of %s is not the one the specification derives" % e["k"], e
+    if ev == "cdisp":
+        # the wire: frames the client end point received under this header vs Calls the server end point was given
+        key = lambda x: (x["c"], x["id"], x["svc"], x["obj"], x["act"])
+        seen = events[1:hw]
+        owed = sum(1 for x in seen if x["ev"] == "sdisp" and x["type"] == "call" and key(x) == key(e))
+        got = sum(1 for x in seen if x["ev"] == "cdisp" and key(x) == key(e))
+        posts = [x for x in seen if x["ev"] == "sdisp" and x["type"] == "post" and key(x) == key(e)]
+        if e["n"] > 1:
+            return ("c04/reply-delivered-to-several-calls",
+                    "one %s frame (id %d) was handed to %d pending calls" % (e["type"], e["id"], e["n"]), e)
+        if got > owed and posts:
+            how = "dropped (consumer queue full)" if any(x["res"] == "blocked" for x in posts) else "delivered"
+            return "c04/response-to-post", "the peer received a %s frame carrying the id of a post that was %s" % (e["type"], how), e
+        if got > owed and owed:
+            return "c04/call-answered-twice", "the peer received %d frames for %d call(s) with id %d" % (got, owed, e["id"]), e
+        if got > owed:
+            return "c04/frame-owed-by-nobody", "the peer received a %s frame with id %d that answers no call" % (e["type"], e["id"]), e
+        return "c04/trace-cdisp", "frame received by the client end point is not the one the specification derives", e
     if ev in ("recv", "done"):
         return "c04/trace-mailbox", "mailbox step %s is not a step of the specification (one mail at a time, FIFO)" % ev, e
     return "c04/trace-" + ev, "event %s cannot be explained by the specification" % ev, e
@@ -71,36 +100,52 @@ def run(ctx):
     thorough = ctx.tier == "thorough"
     rng = random.Random(ctx.seed)
 
-    # 1. design
-    ctx.design_check("MCSystem", "MCSystem.cfg", workers=8, timeout=1500)
+    # 1. design (runs side by side with the replay below)
+    pool = ThreadPoolExecutor(max_workers=6)
+    design = [pool.submit(ctx.design_check, "MCSystem", "MCSystem.cfg", workers=4, timeout=1500),
+              pool.submit(ctx.design_check, "MCSystem", "MCSystem_T.cfg", workers=4, timeout=1500)]
     if thorough:
-        ctx.design_check("MCSystem", "MCSystem_B.cfg", workers=12, timeout=2400)
+        design += [pool.submit(ctx.design_check, "MCSystem", "MCSystem_B.cfg", workers=8, timeout=3000),
+                   pool.submit(ctx.design_check, "MCSystem", "MCSystem_T5.cfg", workers=4, timeout=3000)]
 
-    # 2. the deviations the code had are counterexamples of the model
-    for cfg, inv, what in (("MCSystem_dev_stub.cfg", "OnlyCallAndPostExecute",
-                            "stub dispatching on the action id alone: a Cancel frame runs the method"),
-                           ("MCSystem_dev_ids.cfg", "OwnResult",
-                            "two bus.Client on one end point (bus.Cache.Proxy before the fix): equal ids, reply delivered to both")):
-        r = ctx.tlc("MCSystem", cfg, workers=4, count=False, expect_ok=False, timeout=600)
-        if inv not in r.violated:
-            raise Infra("deviation config %s: expected %s to be violated, got %s" % (cfg, inv, r.violated))
-        ctx.model_only.append({"config": cfg, "violates": inv, "deviation": what,
-                               "note": "model only: the schedules are part of the replayed behaviours, where the fixed code conforms"})
+    # 2. the deviations (those the code had, those of the classes the reply filter and the drop step stand for)
+    #    are counterexamples of the model
+    devs = (("MCSystem_dev_stub.cfg", "OnlyCallAndPostExecute",
+             "stub dispatching on the action id alone: a Cancel frame runs the method"),
+            ("MCSystem_dev_ids.cfg", "OwnResult",
+             "two bus.Client on one end point calling the SAME target (bus.Cache.Proxy before the fix): equal ids, reply delivered to both"),
+            ("MCSystem_dev_filter_obj.cfg", "OwnResult",
+             "reply filter of client.Call does not compare the object id: two clients on one end point, two objects, equal ids"),
+            ("MCSystem_dev_filter_svc.cfg", "OwnResult",
+             "reply filter does not compare the service id: two clients on one end point, two services, equal ids"),
+            ("MCSystem_dev_filter_act.cfg", "OwnResult",
+             "reply filter does not compare the action id: two clients on one end point, two methods of one object, equal ids"),
+            ("MCSystem_dev_filter_id.cfg", "OwnResult",
+             "reply filter does not compare the message id: two calls of one client to one method"),
+            ("MCSystem_dev_droppost.cfg", "PostNoResponse",
+             "saturated end point answers a dropped Post like a dropped Call"),
+            ("MCSystem_dev_dropcall2.cfg", "FramesOwed",
+             "saturated end point answers a dropped Call twice"))
 
     # 3. behaviours (spec -> code)
     beh = ctx.path("c04-behaviours.ndjson")
-    gA = ctx.tlc("GenSystem", "GenSystem_A.cfg", workers=1, count=False, timeout=900)
-    totA, nA = export(ctx, gA, "A", beh, "w")
-    plan = [("A2", "GenSystem_A2.cfg"), ("B", "GenSystem_B.cfg")]
-    exported = {"A": totA}
-    nrep = nA
-    for name, cfg in plan:
-        if thorough and name == "B":
-            g = ctx.tlc("GenSystem", cfg, workers=1, count=False, timeout=1800)
-        else:
-            g = ctx.tlc("GenSystem", cfg, workers=1, count=False, timeout=900,
-                        simulate="num=%d" % (4000 if thorough else 300), depth=300, seed=ctx.seed)
-        tot, n = export(ctx, g, name, beh, "a")
+    nsim = 4000 if thorough else 300
+
+    def gen(cfg, sim):
+        if sim:
+            return ctx.tlc("GenSystem", cfg, workers=1, count=False, timeout=1800,
+                           simulate="num=%d" % nsim, depth=300, seed=ctx.seed)
+        return ctx.tlc("GenSystem", cfg, workers=1, count=False, timeout=1800)
+    plan = [("A", "GenSystem_A.cfg", False), ("A2", "GenSystem_A2.cfg", True), ("B", "GenSystem_B.cfg", not thorough),
+            ("T4", "GenSystem_T4.cfg", False), ("T", "GenSystem_T.cfg", True)]
+    gens = [(name, pool.submit(gen, cfg, sim)) for name, cfg, sim in plan]
+    def dev(cfg):
+        return ctx.tlc("MCSystem", cfg, workers=2, count=False, expect_ok=False, timeout=600)
+    devruns = [(d, pool.submit(dev, d[0])) for d in devs]
+    exported = {}
+    nrep = 0
+    for i, (name, fut) in enumerate(gens):
+        tot, n = export(ctx, fut.result(), name, beh, "w" if i == 0 else "a")
         exported[name] = tot
         nrep += n
     res = ctx.harness_json("system", ["c04-replay", beh], timeout=2400)
@@ -178,8 +223,54 @@ def run(ctx):
                 raise Infra("self-test: TraceSystem accepted a trace with a duplicated execution")
     elif not ctx.violations:
         raise Infra("no accepted trace with a successful call: cannot run the self-test")
+    # ... and of the drop step: a saturation trace in which a dropped Post is answered, and one in which a
+    # dropped Call is answered twice, must be rejected
+    floods = [r for r in results if r[2] and r[1][0].get("kind") == "flood"]
+    muts = []
+    if floods:
+        path, orig = floods[0][0], floods[0][1]
+        # (a dropped post with an id of its own: under an id it shares with a call in flight the extra frame cannot be told
+        # from a premature answer to that call - rejected all the same, named c04/trace-cdisp)
+        dp = [i for i, e in enumerate(orig) if i and e["ev"] == "sdisp" and e["type"] == "post" and e["res"] == "blocked"
+              and e["id"] >= 1000]
+        dc = [i for i, e in enumerate(orig) if i and e["ev"] == "cdisp" and e["type"] == "error"]
+        if dp and dc:
+            lines = [dict(e) for e in orig]
+            ghost = dict(lines[dc[0]])
+            ghost.update({k: lines[dp[0]][k] for k in ("c", "id", "svc", "obj", "act")})
+            ghost["n"] = 0
+            lines[dp[0] + 1:dp[0] + 1] = [ghost]
+            muts.append(("a dropped post is answered with an error frame", "c04/response-to-post", lines))
+            lines = [dict(e) for e in orig]
+            twin = dict(lines[dc[0]])
+            twin["n"] = 0
+            lines[dc[0] + 1:dc[0] + 1] = [twin]
+            muts.append(("a dropped call is answered twice", "c04/call-answered-twice", lines))
+        elif not ctx.violations:
+            # (on a tree that already shows violations earlier runs may still be winding down: no verdict on the harness)
+            raise Infra("flood trace %s has no dropped post or no refused call" % path)
+    elif not ctx.violations:
+        raise Infra("no accepted flood trace: cannot run the self-test of the drop step")
+    for j, (what, klass, lines) in enumerate(muts):
+        bad = ctx.path("corrupted-flood-%d.ndjson" % j)
+        with open(bad, "w") as f:
+            for e in lines:
+                f.write(json.dumps(e) + "\n")
+        acc, hw, n, other, r = validate_trace(ctx, bad, path + ".cfg")
+        if acc:
+            raise Infra("self-test: TraceSystem accepted a saturation trace in which " + what)
+        got = classify(lines, lines[0], hw, other)[0]
+        if got != klass:
+            raise Infra("self-test: saturation trace in which %s is classified %s" % (what, got))
 
     ctx.sample({"trace": os.path.basename(files[0]), "events": results[0][4] - 1, "accepted": results[0][2]})
+    # saturation as a burst on a harness-owned connection: frames per id
+    sat = ctx.harness_json("system", ["c04-saturate", "40" if thorough else "6"], timeout=1800)
+    ctx.failures(sat["failures"])
+    ctx.traces += len(sat["samples"]) if not sat["failures"] else 0
+    for smp in sat["samples"][:2]:
+        ctx.sample(smp)
+    ctx.extra["saturation_burst_requests"] = sat["evaluations"]
     # extension: call cancellation on the client side (Cancel.tla), see design-notes/EXT-cancel.md
     import ext_cancel
     ext_cancel.run(ctx)
@@ -188,20 +279,39 @@ def run(ctx):
     ctx.failures(ids["failures"])
     ctx.traces += 1
     ctx.extra["concurrent_calls_for_id_uniqueness"] = ids["evaluations"]
+    # the model runs started at the beginning
+    for (cfg, inv, what), fut in devruns:
+        r = fut.result()
+        if inv not in r.violated:
+            raise Infra("deviation config %s: expected %s to be violated, got %s" % (cfg, inv, r.violated))
+        ctx.model_only.append({"config": cfg, "violates": inv, "deviation": what,
+                               "note": "model only: the schedules are part of the replayed behaviours / recorded runs, where the code conforms"})
+    for fut in design:
+        fut.result()
+    pool.shutdown()
     ctx.extra.update({
         "behaviours_exported": exported, "behaviours_replayed": res["evaluations"],
         "distinct_behaviours": res["distinct"], "fail_count": res.get("fail_count"),
         "traces_recorded": len(files), "traces_accepted": accepted, "trace_events": rec["extra"]["events"],
-        "explanation": "exhaustive TLC check of the call path for the bounded scenarios; every controlled schedule of "
-                       "scenario A (and sampled/exhaustive ones of A2, B) forced on a real server and compared with the "
-                       "specification's expected observation; randomised concurrent runs and queue-overflow runs "
-                       "validated by TLC against TraceSystem",
-        "constants": {"design": "3 calls / 2 connections / 1 post + 1 cancel, QCap=MCap=1",
-                      "replay": "QCap=MCap=10 as in the code", "trace": "QCap=MCap=10"},
+        "explanation": "exhaustive TLC checks of the call path for the bounded scenarios (A: 2 connections; T: four clients on "
+                       "one end point under one message id); every controlled schedule of scenarios A and T4 (and sampled / "
+                       "exhaustive ones of A2, B, T) forced on a real server - T with bus.Client objects made on one end point "
+                       "as bus.NewClientObject makes them - and compared with the specification's expected observation; "
+                       "randomised concurrent runs, several-clients-on-one-end-point runs and saturation runs (calls and posts "
+                       "dropped by the full consumer queue) validated by TLC against TraceSystem; saturation bursts on a "
+                       "harness-owned connection with frames counted per id",
+        "constants": {"design": "A: 3 calls / 2 connections / 1 post + 1 cancel; T: 4 clients / 1 connection / 2 services / "
+                                "3 objects / 2 actions, all calls id 3; QCap=MCap=1",
+                      "replay": "QCap=MCap=10 as in the code", "trace": "QCap=MCap=10",
+                      "saturation": "27-33 requests one at a time (traces), 33-72 per connection in one write (bursts)"},
     })
     ctx.assumptions += [
         "method bodies and raw frames are harness code; streams are in-process (no network faults in C04)",
         "a post addressed to a missing action/object/service or with undecodable arguments is answered with an error "
         "by the code; the property text is read as speaking about posts that reach a method (PostNoResponse restricted accordingly)",
-        "two bus.Client objects created by hand on one end point are API misuse (bus.Cache, Session create one per end point)",
+        "several bus.Client objects on one end point are legitimate as long as their targets differ in service, object or "
+        "action (bus.NewClientObject: one client per client-hosted object); two clients calling the SAME method of the same "
+        "object over one end point collide by construction (equal ids) - API misuse, kept as the named deviation MCSystem_dev_ids",
+        "the error answers the code gives to one-way messages that reach no method (missing service/object/action, undecodable "
+        "arguments) are exempt from FramesOwed as they are from PostNoResponse",
     ]
